@@ -264,6 +264,16 @@ class Verdict:
         self.cov["tv_runs"].append({"label": label, "files": len(results), "states": st, "rejected": sum(1 for r in results if not r["accepted"]), "drift": nd})
 
     def violation(self, what, replay_obj):
+        # a recorded (not repaired) genuine defect: `known: property=<id> <key>`; the key must occur in
+        # the description of the rejected observation (the exact input / call), so that any OTHER
+        # violation of the same property is still reported
+        for k in known_findings()[0]:
+            m = re.match(r"property=(\S+)\s+(.*)", k)
+            if m and m.group(1) == self.pid and m.group(2).strip() and m.group(2).strip() in what:
+                if k not in self.known_hits:
+                    self.known_hits.append(k)
+                    print("KNOWN-FINDING: property=%s %s" % (self.pid, m.group(2).strip()), flush=True)
+                return
         os.makedirs(os.path.join(REPLAYS, self.pid), exist_ok=True)
         body = json.dumps(replay_obj, sort_keys=True)
         h = hashlib.sha1(body.encode()).hexdigest()[:12]
